@@ -9,9 +9,14 @@ use std::collections::BTreeSet;
 use std::time::Duration;
 
 fn sentinel(ps: &ProjSet, pi: usize, t: &PTarget) -> String {
+    // scripts of different projects take different times, so that "the run ended when the first
+    // of two homonymous targets finished" becomes visible as a missing finish line
+    let delay = if pi % 2 == 1 { "sleep 0.25\n" } else { "" };
     format!(
-        "echo \"S {}:{} $$ $PWD\" >> \"$ZV_TRACE\"",
-        ps.projects[pi].dir, t.name
+        "echo \"S {d}:{n} $$ $PWD\" >> \"$ZV_TRACE\"\n{delay}echo \"F {d}:{n} $$\" >> \"$ZV_TRACE\"",
+        d = ps.projects[pi].dir,
+        n = t.name,
+        delay = delay
     )
 }
 
@@ -147,6 +152,9 @@ pub fn eval_projset_bb(c: &C09Case, which: &str) -> CaseResult {
                 let k = trace.iter().filter(|t| t.kind == 'S' && &t.id == id).count();
                 if k != 1 {
                     return fail(res, "twice", format!("`zinoma {}` ran {} {} times", args.join(" "), id, k));
+                }
+                if !trace.iter().any(|t| t.kind == 'F' && &t.id == id) {
+                    return fail(res, "unfinished", format!("`zinoma {}` exited 0 but the script of {} was started and never finished", args.join(" "), id));
                 }
                 // each script runs in its own project directory
                 let dir = id.split(':').next().unwrap();
